@@ -16,7 +16,8 @@ Section Inst.
   Inductive elt :=
   | EU (o : ureal V)          (* UncertainReal *)
   | EN (v : V)                (* float *)
-  | EI (z : Z).               (* int *)
+  | EI (z : Z)                (* int *)
+  | EC (re im : V).           (* complex (a Python complex object; not numpy's complex128) *)
 
   Definition of_operand (o : operand N) : elt :=
     match o with OpdU u => EU u | OpdN v => EN v end.
@@ -35,9 +36,45 @@ Section Inst.
   Definition num_un (f : binop) (v : V) (ob : ureal V) : res elt :=
     r <- apply_bin N f (@OpdN N v) (@OpdU N ob) ;; o <- of_opval N r ob ob ;; Ok (of_operand o).
 
+  (* CPython complex arithmetic (Objects/complexobject.c): sums and differences by components, the
+     product by the textbook formula, the quotient _Py_c_quot (Smith's method); a float or int operand is
+     first converted to a complex with imaginary part 0.0 *)
+  Definition c_quot (ar ai br bi : V) : res elt :=
+    let abr := if ltb N br (of_Z N 0) then neg N br else br in
+    let abi := if ltb N bi (of_Z N 0) then neg N bi else bi in
+    if leb N abi abr then
+      if eqb N abr (of_Z N 0) then Err ZeroDivisionError
+      else ratio <- div N bi br ;;
+           let denom := add N br (mul N bi ratio) in
+           re <- div N (add N ar (mul N ai ratio)) denom ;;
+           im <- div N (sub N ai (mul N ar ratio)) denom ;;
+           Ok (EC re im)
+    else if leb N abr abi then
+      ratio <- div N br bi ;;
+      let denom := add N (mul N br ratio) bi in
+      re <- div N (add N (mul N ar ratio) ai) denom ;;
+      im <- div N (sub N (mul N ai ratio) ar) denom ;;
+      Ok (EC re im)
+    else Err OtherExn.          (* NaN operands: not generated *)
+
+  Definition cbin (f : binop) (ar ai br bi : V) : res elt :=
+    match f with
+    | B_add => Ok (EC (add N ar br) (add N ai bi))
+    | B_sub => Ok (EC (sub N ar br) (sub N ai bi))
+    | B_mul => Ok (EC (sub N (mul N ar br) (mul N ai bi)) (add N (mul N ar bi) (mul N ai br)))
+    | B_div => c_quot ar ai br bi
+    | _ => Err OtherExn
+    end.
+
+  Definition as_num (a : elt) : option V :=
+    match a with EN v => Some v | EI z => Some (of_Z N z) | _ => None end.
+
   (* lhs (op) rhs with Python's dispatch on the operand types *)
   Definition bin (f : binop) (a b : elt) : res elt :=
     match a, b with
+    | EC ar ai, EC br bi => cbin f ar ai br bi
+    | EC ar ai, _ => match as_num b with Some v => cbin f ar ai v (of_Z N 0) | None => Err OtherExn end
+    | _, EC br bi => match as_num a with Some v => cbin f v (of_Z N 0) br bi | None => Err OtherExn end
     | EI x, EI y =>
         match f with
         | B_add => Ok (EI (x + y)) | B_sub => Ok (EI (x - y)) | B_mul => Ok (EI (x * y))
@@ -54,10 +91,18 @@ Section Inst.
     end.
 
   Definition val (a : elt) : V :=
-    match a with EU o => ux o | EN v => v | EI z => of_Z N z end.
+    match a with EU o => ux o | EN v => v | EI z => of_Z N z | EC re _ => re end.
 
   Definition isz (a : elt) : bool :=
-    match a with EI z => Z.eqb z 0 | _ => eqb N (val a) (of_Z N 0) end.
+    match a with
+    | EI z => Z.eqb z 0
+    | EC re im => eqb N re (of_Z N 0) && eqb N im (of_Z N 0)
+    | _ => eqb N (val a) (of_Z N 0)
+    end.
+
+  (* abs(x): of the value; for a complex number the external hypot(re, im) *)
+  Definition eabs (a : elt) : res V :=
+    match a with EC re im => libm2 N F_hypot re im | _ => Ok (nabs N (val a)) end.
 
   (* +x : UncertainReal.__pos__ copies the three vectors and drops the node; +number = number *)
   Definition pos (a : elt) : elt :=
@@ -78,7 +123,7 @@ Section Inst.
     e_pos := pos;
     e_isz := isz;
     e_skip := skipz;
-    e_abs := fun x => nabs N (val x);
+    e_abs := eabs;
     w_zero := of_Z N 0;
     w_gt := fun a b => ltb N b a;
     w_ge := fun a b => leb N b a;
@@ -97,6 +142,7 @@ Section Inst.
     | EU o, EU o' => out_eqb N (dump N o) (dump N o')
     | EN v, EN v' => same N v v'
     | EI z, EI z' => Z.eqb z z'
+    | EC r i, EC r' i' => same N r r' && same N i i'
     | _, _ => false
     end.
 
@@ -129,6 +175,7 @@ Section Inst.
   | CScale (lft : bool) (sc : elt) (fa : list elt)
   | CMatmulMixed (ra rb : nat)
   | CDtypeMismatch
+  | CIdentity (n : nat)
   | CListArg
   | CBoolDtype
   | CTransposeN (shape axes : list nat) (fa : list elt).
@@ -180,6 +227,7 @@ Section Inst.
        UncertainArray.copy() applies unary + to numpy booleans (UFuncTypeError, not in the exn enumeration) *)
     | CListArg => Err AttributeError
     | CBoolDtype => Err OtherExn
+    | CIdentity n => Ok (to_rows FElt n n (identity FElt), [], [])      (* la.identity(n): a fresh array of ints *)
     | CDtypeMismatch => Err AssertionError      (* LU.solve / LU.invab: assert a.dtype == b.dtype *)
     | CMatmulMixed ra rb =>
         (* known finding C15-3: la.matmul pairs the stacks of operands of the SAME rank only; with
